@@ -3,7 +3,6 @@ package main
 import (
 	"encoding/json"
 	"fmt"
-	"os"
 	"strings"
 	"sync/atomic"
 
@@ -116,10 +115,6 @@ func (r *seqRun) exec(indent string) impl.Obs {
 	call := impl.Call{Doc: []byte(r.dtxt), Patch: patch, Opt: r.opt, Indent: indent, UseDefaults: r.p.UseDefaults}
 	r.w.Tick(func() string { b, _ := json.Marshal(r.kase()); return string(b) })
 	atomic.AddInt64(&nExec, 1)
-	if traceFile != nil {
-		b, _ := json.Marshal(r.kase())
-		traceFile.Write(append(b, '\n'))
-	}
 	if r.p.Legacy {
 		return impl.V4Apply(call)
 	}
@@ -127,19 +122,6 @@ func (r *seqRun) exec(indent string) impl.Obs {
 }
 
 var nExec int64
-
-// traceFile (VERIF_TRACE=<path>): every case is written out before it runs, so
-// that a crash the runtime cannot recover from (stack overflow, out of memory)
-// can be attributed by the driver: the culprit is among the last lines.
-var traceFile = func() *os.File {
-	if p := os.Getenv("VERIF_TRACE"); p != "" {
-		f, err := os.OpenFile(p, os.O_CREATE|os.O_WRONLY|os.O_APPEND, 0o644)
-		if err == nil {
-			return f
-		}
-	}
-	return nil
-}()
 
 // seqProp configures one property's exploration.
 type seqProp struct {
